@@ -81,7 +81,7 @@ def pp_layout(tier='quick', seed=0):
             unit = bpc[f1] if f2 is None else (bpc[f1] * bpc[f2] // __import__('math').gcd(bpc[f1], bpc[f2]))
             group = rng.choice([None, 0, 1, 2, 3, 4, 6, 8]) 
             bits_per_group = None if group is None else group * unit
-            n = rng.choice([0, 1, 7, 8, 24, 25, 100, 257]) 
+            n = rng.choice([0, 1, 7, 8, 12, 24, 25, 36, 100, 257])
             width = rng.choice([0, 1, 5, 20, 40, 80, 120, 200])
             sep = rng.choice([' ', '_', '', ' | '])
             show_offset = rng.random() < 0.5
@@ -96,7 +96,15 @@ def pp_layout(tier='quick', seed=0):
             evals += 1
             try:
                 b.pp(fmt, width=width, sep=sep, show_offset=show_offset, stream=out)
-            except ValueError:
+            except ValueError as ex:
+                # refused today exactly when the format is ungrouped and the data is not a whole number of its digits; a grouped format
+                # reports the odd bits as trailing bits, and whole-digit data always prints
+                if (not bits_per_group) and any(n % bpc[f] for f in (f1, f2) if f):
+                    continue
+                fails.append({'call': f'Bits(bin={s!r}).pp({fmt!r}, width={width}, sep={sep!r}, show_offset={show_offset})', 'observed': f'{type(ex).__name__}: {ex}'[:160],
+                              'expected': 'the digits of the data (a whole number of digits of each format, or a grouped format)',
+                              'python': 'import io, bitstring\n' + f"try:\n    bitstring.Bits(bin={s!r}).pp({fmt!r}, width={width}, sep={sep!r}, show_offset={show_offset}, stream=io.StringIO())\n"
+                                        "    FAILS = False\nexcept ValueError:\n    FAILS = True\n"})
                 continue
             except Exception as ex:
                 fails.append({'call': f'Bits(bin={s!r}).pp({fmt!r}, width={width}, sep={sep!r}, show_offset={show_offset})', 'observed': type(ex).__name__,
